@@ -130,7 +130,14 @@ def run(ctx):
             if rs is None:
                 ctx.fail(f'rule application raised on well-formed categories ({out})', desc, fingerprint=['raise'] + desc)
                 continue
+            # the returned list is the caller's: callers (depccg's own label guesser among them) append to it
+            rs.append(rs[0] if rs else None)
+            rs.pop()
+            if len(desc[1]) % 3 == 0:
+                rs.append('caller-owned')
             rs2, out2 = G.call_rules(mod.apply_binary_rules, x, y)
+            if rs and rs[-1] == 'caller-owned':
+                rs.pop()
             if out2 != out:
                 ctx.fail('two calls with the same arguments gave different lists', desc, fingerprint=['twice'] + desc)
             if rs:
@@ -139,6 +146,15 @@ def run(ctx):
             text_cases.append(([lang, desc[1], desc[2]], 'ok ' + digest(rs)))
             # seen gate with the shipped set
             rs3, out3 = G.call_rules(mod.apply_binary_rules, x, y, seen_rules=shipped_seen[lang])
+            if rs3 is not None and len(desc[2]) % 4 == 0:
+                # what guess_combinator_by_triplet does with the list of a restricted rule function
+                from depccg.grammar import guess_combinator_by_triplet
+                import functools
+                try:
+                    guess_combinator_by_triplet(functools.partial(mod.apply_binary_rules, seen_rules=shipped_seen[lang]), x, x, y)
+                except Exception:
+                    pass
+                rs3.append('caller-owned')
             cases.append((lang + '_bin', f'{lang}_bin ship_{lang} {enc_cat(x)} {enc_cat(y)}', out3, desc + ['shipped seen']))
             ctx.evaluations += 1
             key = (erase_sig(sx, ('X', 'nb')), erase_sig(sy, ('X', 'nb'))) if lang == 'en' else (sx, sy)
@@ -220,7 +236,7 @@ def run(ctx):
                 if rs is None:
                     ctx.fail(f'unary rules raised ({out})', desc, fingerprint=['unary-raise'] + desc)
                     continue
-                if [sig(r.cat) for r in rs] != tsig.get(sx, []):
+                if [(sig(r.cat) if hasattr(r, 'cat') else repr(r)) for r in rs] != tsig.get(sx, []):
                     ctx.fail('unary rules did not return exactly the configured targets in order', desc, fingerprint=['unary'] + desc)
                 if rs:
                     ctx.nontrivial_add(('unary', lang, name, desc[2]))
